@@ -38,6 +38,15 @@ META[P] = {
 def solver(ctx: Ctx) -> Func:
     for f in ctx.repo.funcs_in("ropt.ensemble_evaluator._gradient"):
         if any(ctx.X.at(f, c.func) == ("global", "numpy.linalg.svd") for c in calls_in(f)):
+            # the solver may be split: climb to the (matrix, vector) entry the gradient code calls
+            for _ in range(3):
+                cs = {c_.qualname: c_ for c_, _call in ctx.cg.callers(f)}
+                if len(cs) == 1:
+                    g = next(iter(cs.values()))
+                    if g.cls is None and g.module is f.module and g.name.startswith("_") and len(g.positional) == 2:
+                        f = g
+                        continue
+                break
             return f
     raise AnalysisError("least-squares solver (np.linalg.svd) not found in the gradient module")
 
@@ -197,7 +206,7 @@ def c02_3(ctx: Ctx) -> RuleResult:
     res = RuleResult("C02.3", "TERM", "solver == V diag(1/sigma | selected) U^T b with thin U, V; selection: cumulative energy < SVD_TOLERANCE plus the first element that passes")
     X = ctx.X
     s = solver(ctx)
-    rt = norm(X.return_term(s))
+    rt = norm(X.force_inline(X.return_term(s), s))
     mat, vec = ("param", s.qualname, s.positional[0]), ("param", s.qualname, s.positional[1])
     svd = None
     for x in subterms(rt):
@@ -351,10 +360,12 @@ def c02_6(ctx: Ctx) -> RuleResult:
             als = [norm(a) for a in alts(rt)]
             dot_ok = any(match(a, call("numpy.dot", g, w)) is not None for a in als)
             ident = [a for a in als if a == g]
+            # the pass-through happens only where merge_realizations holds (if / early return / negated test / conditional expression)
             merged_guard = False
-            for n in nodes_in(h, ast.If):
-                if ends_with_attrs(X.value_at(h, n.test), "gradient", "merge_realizations") and any(isinstance(s, ast.Return) and ast.unparse(s.value) == ps[1] for s in n.body):
-                    merged_guard = True
+            leaves = list(guard_leaves(X.guarded_return(h), strip_wrappers=False))
+            idl = [(conds, leaf) for conds, leaf in leaves if norm(leaf) == g]
+            if idl and all(any(p_ and ends_with_attrs(a_, "gradient", "merge_realizations") for a_, p_ in conds) for conds, _l in idl):
+                merged_guard = True
             ok = dot_ok and (not ident or merged_guard) and len(als) <= 2
             res.add(h, h.node, "mean gradient == dot(gradients, weights); the merged gradient is passed through only under merge_realizations", ok,
                     "" if ok else f"mean gradient is `{show(rt, 120)}`", construct=f"{c.name}: mean gradient")
